@@ -39,13 +39,15 @@ Definition RP := TOp xgo_RPAREN.
 Definition COMMA := TOp xgo_COMMA.
 
 (* ---------- printer ----------
-   expr1(expr, prec1, depth) restricted to its token output.  Only BinaryExpr, UnaryExpr and
-   StarExpr look at prec1; every other case ignores it.  plev is the precedence the printer
-   compares with prec1 ("never parenthesised" = above HighestPrec). *)
+   expr1(expr, prec1, depth) restricted to its token output.  BinaryExpr, UnaryExpr, StarExpr,
+   ErrWrapExpr with a default and LambdaExpr look at prec1; every other case ignores it.  plev is the
+   precedence the printer compares with prec1 ("never parenthesised" = above HighestPrec). *)
 Definition plev (e : expr) : Z :=
   match e with
   | EBin op _ _ => prec op
   | EUn _ _ | EStar _ => UnaryPrec
+  | EEwd _ _ _ => UnaryPrec             (* ErrWrapExpr: paren := x.Default != nil && token.UnaryPrec < prec1 *)
+  | ELam _ _ _ _ => LowestPrec          (* LambdaExpr: parentheses when token.LowestPrec < prec1 *)
   | _ => HighestPrec + 1
   end.
 
@@ -59,7 +61,7 @@ Fixpoint pr (e : expr) : list tok :=           (* expr1(e, LowestPrec, _) *)
   | ELit k s => [TLit k s]
   | EBin op x y => at_ (prec op) x ++ TOp op :: at_ (prec op + 1) y
   | EUn op x => TOp op :: at_ UnaryPrec x                  (* p.expr1(x.X, prec, depth) *)
-  | EStar x => TOp xgo_MUL :: pr x                          (* p.expr(x.X) *)
+  | EStar x => TOp xgo_MUL :: at_ UnaryPrec x               (* p.expr1(x.X, prec, depth) *)
   | EPar x => match x with
               | EPar _ => pr x                              (* don't print parentheses around an already parenthesized expression *)
               | _ => LP :: pr x ++ [RP]
@@ -67,8 +69,9 @@ Fixpoint pr (e : expr) : list tok :=           (* expr1(e, LowestPrec, _) *)
   | ESel x s => at_ HighestPrec x ++ [TOp xgo_PERIOD; TId s]
   | EIdx x i => at_ HighestPrec x ++ TOp xgo_LBRACK :: pr i ++ [TOp xgo_RBRACK]
   | ECall f args ell => at_ HighestPrec f ++ LP :: prl args ++ (if ell then [TOp xgo_ELLIPSIS; RP] else [RP])
-  | EEw t x => pr x ++ [TOp t]                              (* p.expr(x.X); p.print(x.Tok) *)
-  | EEwd t x d => pr x ++ TOp t :: TOp xgo_COLON :: pr d    (* ... p.print(token.COLON); p.expr(x.Default) *)
+  | EEw t x => at_ HighestPrec x ++ [TOp t]                 (* p.expr1(x.X, token.HighestPrec, depth); p.print(x.Tok) *)
+  | EEwd t x d => at_ HighestPrec x ++ TOp t :: TOp xgo_COLON :: at_ UnaryPrec d
+                                                            (* ... p.print(token.COLON); p.expr1(x.Default, token.UnaryPrec, depth) *)
   | ELam lhs lp rhs rp =>
       (if lp then LP :: match lhs with [] => [] | a :: t => TId a :: flat_map (fun s => [COMMA; TId s]) t end ++ [RP]
        else match lhs with [] => [] | a :: _ => [TId a] end) ++
@@ -365,13 +368,13 @@ Fixpoint norm (e : expr) : expr :=
   | ELit k s => ELit k s
   | EBin op x y => EBin op (nat_ (prec op) x) (nat_ (prec op + 1) y)
   | EUn op x => EUn op (nat_ UnaryPrec x)
-  | EStar x => EStar (norm x)
+  | EStar x => EStar (nat_ UnaryPrec x)
   | EPar x => match x with EPar _ => norm x | _ => EPar (norm x) end
   | ESel x s => ESel (nat_ HighestPrec x) s
   | EIdx x i => EIdx (nat_ HighestPrec x) (norm i)
   | ECall f args ell => ECall (nat_ HighestPrec f) (map norm args) ell
-  | EEw t x => EEw t (norm x)
-  | EEwd t x d => EEwd t (norm x) (norm d)
+  | EEw t x => EEw t (nat_ HighestPrec x)
+  | EEwd t x d => EEwd t (nat_ HighestPrec x) (nat_ UnaryPrec d)
   | ELam lhs lp rhs rp => ELam lhs lp (map norm rhs) rp
   end.
 Definition nat_ (p : Z) (x : expr) := if plev x <? p then EPar (norm x) else norm x.
@@ -393,12 +396,12 @@ Fixpoint strip (e : expr) : expr :=
   end.
 
 (* the precedence level at which the parser reads each kind of expression:
-   0 lambda, 1..5 binary, 6 unary, 7 error wrap with default, 8 primary *)
+   0 lambda, 1..5 binary, 6 unary and error wrap with default, 8 primary *)
 Definition tlev (e : expr) : Z :=
   match e with
   | EBin op _ _ => prec op
   | EUn _ _ | EStar _ => UnaryPrec
-  | EEwd _ _ _ => 7
+  | EEwd _ _ _ => UnaryPrec             (* read by parseErrWrapExpr, i.e. wherever a unary expression is read *)
   | ELam _ _ _ _ => 0
   | _ => 8
   end.
@@ -442,7 +445,7 @@ Fixpoint starts_lp (e : expr) : bool :=
   | EPar _ => true
   | EBin op x _ => (plev x <? prec op) || starts_lp x
   | ECall x _ _ | EIdx x _ | ESel x _ => (plev x <? HighestPrec) || starts_lp x
-  | EEw _ x | EEwd _ x _ => starts_lp x
+  | EEw _ x | EEwd _ x _ => (plev x <? HighestPrec) || starts_lp x
   | ELam _ lp _ _ => lp
   end.
 
@@ -455,13 +458,13 @@ Fixpoint posokb (e : expr) : bool :=
   | EId _ | ELit _ _ => true
   | EBin op x y => ok_at (prec op) (prec op) x && ok_at (prec op + 1) (prec op + 1) y && posokb x && posokb y
   | EUn _ x => ok_at UnaryPrec UnaryPrec x && posokb x
-  | EStar x => ok_at LowestPrec UnaryPrec x && posokb x              (* printed by p.expr, read by parseUnaryExpr *)
+  | EStar x => ok_at UnaryPrec UnaryPrec x && posokb x
   | EPar x => posokb x
   | ECall f args _ => ok_at HighestPrec 8 f && posokb f && forallb posokb args
   | EIdx x i => ok_at HighestPrec 8 x && posokb x && posokb i
   | ESel x _ => ok_at HighestPrec 8 x && posokb x
-  | EEw _ x => ok_at LowestPrec 8 x && posokb x                      (* printed by p.expr, read as a primary expression *)
-  | EEwd _ x d => ok_at LowestPrec 8 x && ok_at LowestPrec UnaryPrec d && posokb x && posokb d
+  | EEw _ x => ok_at HighestPrec 8 x && posokb x
+  | EEwd _ x d => ok_at HighestPrec 8 x && ok_at UnaryPrec UnaryPrec d && posokb x && posokb d
   | ELam _ _ rhs rp => forallb posokb rhs && (rp || negb (match rhs with a :: _ => starts_lp a | [] => false end))
   end.
 
@@ -484,12 +487,23 @@ Fixpoint noaddb (e : expr) : bool :=
   | EId _ | ELit _ _ => true
   | EBin op x y => tight (prec op) x && tight (prec op + 1) y && noaddb x && noaddb y
   | EUn _ x => tight UnaryPrec x && noaddb x
-  | EStar x => noaddb x
+  | EStar x => tight UnaryPrec x && noaddb x
   | EPar x => negb (is_par x) && noaddb x
   | ECall f args _ => tight HighestPrec f && noaddb f && forallb noaddb args
   | EIdx x i => tight HighestPrec x && noaddb x && noaddb i
   | ESel x _ => tight HighestPrec x && noaddb x
-  | EEw _ x => noaddb x
-  | EEwd _ x d => noaddb x && noaddb d
+  | EEw _ x => tight HighestPrec x && noaddb x
+  | EEwd _ x d => tight HighestPrec x && tight UnaryPrec d && noaddb x && noaddb d
   | ELam _ _ rhs _ => forallb noaddb rhs
+  end.
+
+(* since the printer parenthesises every operand whose level is below its position, the only operand
+   position that can still be misread is a lambda body that starts with "(" (read as a result list) *)
+Fixpoint lamokb (e : expr) : bool :=
+  match e with
+  | EId _ | ELit _ _ => true
+  | EUn _ x | EStar x | EPar x | ESel x _ | EEw _ x => lamokb x
+  | EBin _ x y | EIdx x y | EEwd _ x y => lamokb x && lamokb y
+  | ECall f args _ => lamokb f && forallb lamokb args
+  | ELam _ _ rhs rp => forallb lamokb rhs && (rp || negb (match rhs with a :: _ => starts_lp a | [] => false end))
   end.
